@@ -466,6 +466,7 @@ struct Driver {
             ev::Ev e("reset");
             e.s("mode", mode).bytes("key", key).i("max", static_cast<long long>(kMax)).b("connected", connected).b("gate", gate.load()).b("hs", use_hs).b("ack", use_ack).i("seed", seed);
             e.emit();
+            flush();   // the handshake ack the real listener produced (in mode) is part of this behaviour's sends
         } else if (c.op == "send") {
             const std::string from = c.s("from", "A");
             const std::size_t n = static_cast<std::size_t>(c.i("n"));
